@@ -7,7 +7,7 @@ import QmcProofs.BondContainer
 What Lean decides (all sizes, weights, counts):
 * (iv) the pure helpers are what they should be: `remove_doubles`, `find_overlapping_starts`,
   `calculate_mult`, `contiguous_bits`, `BondContainer` (invariant, total, selection rule; with the
-  draw-0 edge F12 stated and witnessed);
+  draw-0 edge F12 — fixed in /repo — as a regression witness);
 * (i)/(ii) the algebraic detailed-balance core on the segment abstraction (added below);
 * (iii) the move relation preserves consistency / legality / operator count (added below).
 Not decided here: the region-growing procedure (modelled by observation only), f64 rounding.
@@ -149,7 +149,7 @@ theorem bc_insert_getWeight {c : BC} (hc : BC.Inv c) (k : Nat) {w : Rat} (hw : 0
 theorem bc_getRandom_interval {c : BC} (hc : BC.Inv c) (p : Rat) (hp : 0 < p) (i : Nat) (hi : i < c.keys.length) :
     c.pick p = some i ↔ c.cum i < p ∧ p ≤ c.cum (i + 1) := by
   unfold BC.pick BC.cum
-  have hspec := BC.pickLoop_spec c.keys p i hi
+  have hspec := BC.pickLoop_spec c.keys hc.nonneg p hp i hi
   constructor
   · intro h
     simp only at h
@@ -171,94 +171,100 @@ theorem bc_getRandom_interval {c : BC} (hc : BC.Inv c) (p : Rat) (hp : 0 < p) (i
       exact lt_of_le_of_lt this h1
     simp [this, hi]
 
-/-- no out-of-bounds access: a draw in `[0, total]` always selects a key -/
-theorem bc_getRandom_in_bounds {c : BC} (hc : BC.Inv c) (hne : c.keys ≠ []) (p : Rat) (hp : p ≤ c.total) :
-    ∃ i, c.pick p = some i ∧ i < c.keys.length := by
+/-- a draw of exactly 0 (probability 2⁻⁵² per draw) selects the first key of positive weight
+(the code after the F12 fix; before it, key 0 was selected whatever its weight) -/
+theorem bc_getRandom_zero_draw {c : BC} (hc : BC.Inv c) (i : Nat) (hi : i < c.keys.length) :
+    c.pick 0 = some i ↔ (∀ j (hj : j < i), (c.keys[j]'(by omega)).2 = 0) ∧ 0 < (c.keys[i]).2 := by
   unfold BC.pick
-  have hlen : 0 < c.keys.length := List.length_pos_iff.2 hne
-  by_cases h : BC.pickLoop c.keys p 0 < c.keys.length
-  · exact ⟨_, by simp [h], h⟩
-  · exfalso
-    -- the loop ran off the end: every partial sum is < p, in particular the total
-    have key : ∀ (ks : List (Nat × Rat)) (q : Rat), ¬ BC.pickLoop ks q 0 < ks.length → BC.sumW ks < q ∨ ks = [] := by
-      intro ks
-      induction ks with
-      | nil => intro q _; right; rfl
-      | cons a t ih =>
-        intro q hq
-        left
-        unfold BC.pickLoop at hq
-        split at hq
-        · simp at hq
-        · rename_i hgt
-          rw [BC.pickLoop_shift] at hq
-          have : ¬ BC.pickLoop t (q - a.2) 0 < t.length := by simp at hq ⊢; omega
-          rcases ih _ this with h1 | h1
-          · simp only [BC.sumW, List.map_cons, List.sum_cons] at h1 ⊢; linarith
-          · subst h1; simp only [BC.sumW, List.map_cons, List.sum_cons, List.map_nil, List.sum_nil]
-            linarith
-    rcases key c.keys p h with h1 | h1
-    · rw [hc.total] at hp; linarith
-    · exact hne h1
-
-/-- **full-strength statement under the weakest hypothesis** (`…_partial`): a selected key has
-positive weight provided the draw is not exactly 0 or the first key has positive weight. -/
-theorem bc_getRandom_positive_partial {c : BC} (hc : BC.Inv c) (p : Rat) (hp0 : 0 ≤ p)
-    (hedge : p ≠ 0 ∨ ∀ kw, c.keys.head? = some kw → 0 < kw.2) (i : Nat) (h : c.pick p = some i) :
-    ∃ hi : i < c.keys.length, 0 < (c.keys[i]).2 := by
-  have hi : i < c.keys.length := by
-    unfold BC.pick at h; simp only at h; split at h
-    · injection h with h; omega
+  have hspec := BC.pickLoop_nonpos c.keys hc.nonneg 0 (le_refl 0) i hi
+  constructor
+  · intro h
+    simp only at h
+    split at h
+    · injection h with h; exact hspec.1 h
     · cases h
-  refine ⟨hi, ?_⟩
-  by_cases hp : p = 0
-  · -- the draw is 0: index 0 is selected; its weight is positive by the edge hypothesis
+  · intro h
+    have := hspec.2 h
+    simp [this, hi]
+
+/-- **a selected key always has positive weight** (so a re-bonded operator is never stored with
+weight 0 through this path): full strength, every draw. -/
+theorem bc_getRandom_positive (c : BC) (p : Rat) (i : Nat) (h : c.pick p = some i) :
+    ∃ hi : i < c.keys.length, 0 < (c.keys[i]).2 := by
+  unfold BC.pick at h
+  simp only at h
+  split at h
+  · rename_i hlt
+    injection h with h
+    subst h
+    exact ⟨hlt, BC.pickLoop_pos c.keys p _ hlt rfl⟩
+  · cases h
+
+theorem exists_first_pos (ks : List (Nat × Rat)) (hnn : ∀ kw ∈ ks, 0 ≤ kw.2) (h : 0 < BC.sumW ks) :
+    ∃ j, ∃ hj : j < ks.length, (∀ i (hi : i < j), (ks[i]'(by omega)).2 = 0) ∧ 0 < (ks[j]).2 := by
+  induction ks with
+  | nil => simp [BC.sumW] at h
+  | cons a t ih =>
+    have ha : 0 ≤ a.2 := hnn a (by simp)
+    by_cases h0 : 0 < a.2
+    · exact ⟨0, by simp, fun i hi => absurd hi (Nat.not_lt_zero _), by simpa using h0⟩
+    · have ha0 : a.2 = 0 := by linarith
+      have : 0 < BC.sumW t := by
+        simp only [BC.sumW, List.map_cons, List.sum_cons] at h ⊢; linarith
+      obtain ⟨j, hj, h1, h2⟩ := ih (fun kw hk => hnn kw (by simp [hk])) this
+      refine ⟨j + 1, by simpa using hj, ?_, by simpa using h2⟩
+      intro i hi
+      cases i with
+      | zero => simpa using ha0
+      | succ m => simpa using h1 m (by omega)
+
+/-- no out-of-bounds access: with a positive total a draw in `[0, total]` always selects a key -/
+theorem bc_getRandom_in_bounds {c : BC} (hc : BC.Inv c) (htot : 0 < c.total) (p : Rat) (hp0 : 0 ≤ p)
+    (hp : p ≤ c.total) : ∃ i, c.pick p = some i ∧ i < c.keys.length := by
+  by_cases hpos : 0 < p
+  · unfold BC.pick
+    by_cases h : BC.pickLoop c.keys p 0 < c.keys.length
+    · exact ⟨_, by simp [h], h⟩
+    · exfalso
+      rw [BC.pickLoop_eq_pickLoop0 c.keys hc.nonneg p hpos] at h
+      -- the plain loop ran off the end: every partial sum is < p, in particular the total
+      have key : ∀ (ks : List (Nat × Rat)) (q : Rat), ¬ BC.pickLoop0 ks q 0 < ks.length → BC.sumW ks < q ∨ ks = [] := by
+        intro ks
+        induction ks with
+        | nil => intro q _; right; rfl
+        | cons a t ih =>
+          intro q hq
+          left
+          unfold BC.pickLoop0 at hq
+          split at hq
+          · simp at hq
+          · rename_i hgt
+            rw [BC.pickLoop0_shift] at hq
+            have : ¬ BC.pickLoop0 t (q - a.2) 0 < t.length := by simp at hq ⊢; omega
+            rcases ih _ this with h1 | h1
+            · simp only [BC.sumW, List.map_cons, List.sum_cons] at h1 ⊢; linarith
+            · subst h1; simp only [BC.sumW, List.map_cons, List.sum_cons, List.map_nil, List.sum_nil]
+              linarith
+      rcases key c.keys p h with h1 | h1
+      · rw [hc.total] at hp; linarith
+      · rw [hc.total, h1] at htot; simp [BC.sumW] at htot
+  · have hp : p = 0 := by linarith
     subst hp
-    have h0 : c.pick 0 = some 0 := by
-      unfold BC.pick
-      cases hk : c.keys with
-      | nil => rw [hk] at hi; simp at hi
-      | cons a t =>
-        have : 0 ≤ a.2 := hc.nonneg a (by rw [hk]; simp)
-        have : BC.pickLoop (a :: t) 0 0 = 0 := by
-          unfold BC.pickLoop; split
-          · rfl
-          · rename_i hh; exfalso; apply hh; linarith
-        simp [this]
-    rw [h0] at h; injection h with h; subst h
-    rcases hedge with h1 | h1
-    · exact absurd rfl h1
-    · apply h1
-      rw [List.head?_eq_getElem?, List.getElem?_eq_getElem hi]
-  · have hpos : 0 < p := lt_of_le_of_ne hp0 (Ne.symm hp)
-    obtain ⟨h1, h2⟩ := (bc_getRandom_interval hc p hpos i hi).1 h
-    unfold BC.cum at h1 h2
-    have := BC.sumW_take_succ c.keys i hi
-    unfold BC.sumW at this
-    linarith
+    rw [hc.total] at htot
+    obtain ⟨j, hj, h1, h2⟩ := exists_first_pos c.keys hc.nonneg htot
+    exact ⟨j, (bc_getRandom_zero_draw hc j hj).2 ⟨h1, h2⟩, hj⟩
 
-/-- **F12, the edge**: a draw of exactly 0 selects the first key whatever its weight … -/
-theorem bc_getRandom_zero_edge {c : BC} (hc : BC.Inv c) (hne : c.keys ≠ []) : c.pick 0 = some 0 := by
-  unfold BC.pick
-  cases hk : c.keys with
-  | nil => exact absurd hk hne
-  | cons a t =>
-    have : 0 ≤ a.2 := hc.nonneg a (by rw [hk]; simp)
-    have : BC.pickLoop (a :: t) 0 0 = 0 := by
-      unfold BC.pickLoop; split
-      · rfl
-      · rename_i hh; exfalso; apply hh; linarith
-    simp [this]
-
-/-- … witness: keys `[(3, 0), (1, 2)]` (built by two `insert`s), draw 0 ⇒ key 3 of weight 0. -/
+/-- regression witness for F12 (fixed in /repo commit b694648): keys `[(3, 0), (1, 2)]` built by
+two `insert`s, draw 0 ⇒ the zero-weight first key is skipped and key 1 is selected. -/
 theorem bc_getRandom_zero_weight_witness :
     let c := ((BC.empty.insert 3 0).1.insert 1 2).1
-    BC.Inv c ∧ c.pick 0 = some 0 ∧ c.keys[0]? = some (3, 0) := by
-  refine ⟨BC.inv_insert (BC.inv_insert BC.inv_empty 3 (le_refl 0)) 1 (by norm_num), ?_, ?_⟩
+    BC.Inv c ∧ c.pick 0 = some 1 ∧ c.keys[0]? = some (3, 0) ∧ c.keys[1]? = some (1, 2) := by
+  refine ⟨BC.inv_insert (BC.inv_insert BC.inv_empty 3 (le_refl 0)) 1 (by norm_num), ?_, ?_, ?_⟩
   · simp [BC.insert, BC.empty, BC.growMap, BC.pick, BC.pickLoop]
   · simp [BC.insert, BC.empty, BC.growMap]
+  · simp [BC.insert, BC.empty, BC.growMap]
 
-/-- non-vacuity: a non-trivial container satisfying the invariant, and a positive draw -/
+/-- non-vacuity: a positive draw on the same container -/
 example : (((BC.empty.insert 3 0).1.insert 1 2).1).pick 1 = some 1 := by
   simp [BC.insert, BC.empty, BC.growMap, BC.pick, BC.pickLoop]; norm_num
 
